@@ -9,6 +9,7 @@ import (
 	"crypto/rsa"
 	"crypto/x509"
 	"encoding/hex"
+	"encoding/json"
 	"encoding/pem"
 	"fmt"
 	"math/big"
@@ -419,12 +420,13 @@ func callAccessors(get *payloads.GetResponsePayload) (what string, err error) {
 
 func TestC14Accessors(t *testing.T) {
 	const name = "TestC14Accessors"
-	rec := evid.New("C14", name, "Get response payloads with any generated managed object (9 types, 13 key formats, wrapped / absent key values), additionally with 0..3 random sub-elements of the object removed or retyped at tree level; "+
+	rec := evid.New("C14", name, "Get response payloads with any generated managed object (9 types, 13 key formats, wrapped / absent key values), additionally with 0..3 random sub-elements of the object removed, given another enumeration value, or emptied (zero-length string, zero number) at tree level; "+
 		"every payload that the decoder accepts has all its accessors called (GetResponsePayload.*, object methods, KeyBlock helpers); oracle: returns value or error, never panics; "+
 		"non-trivial = an element was removed or the key value is wrapped/absent; distinct by encoded payload").Attach(t)
 	rapid.Check(t, func(rt *rapid.T) {
 		g := gen.NewG(rt, gen.MsgOpts{})
 		obj := g.Object()
+		supportedCurve(rt, obj)
 		pl := &payloads.GetResponsePayload{ObjectType: obj.ObjectType(), UniqueIdentifier: "id", Object: obj}
 		w := &refwalk.Walker{}
 		ns, err := w.Emit(tagResponsePayload, reflect.ValueOf(pl))
@@ -443,6 +445,27 @@ func TestC14Accessors(t *testing.T) {
 			})
 			if len(structs) == 0 {
 				break
+			}
+			if rapid.IntRange(0, 3).Draw(rt, "hollow") == 0 {
+				// present but empty: a byte / text string of length 0, a zero number (decodable, carries no material)
+				var leaves []*ttlvref.Node
+				tree.Walk(func(n *ttlvref.Node, d int) {
+					switch n.Type {
+					case ttlvref.ByteString, ttlvref.TextString, ttlvref.BigInteger, ttlvref.Integer, ttlvref.LongInteger:
+						if d >= 2 {
+							leaves = append(leaves, n)
+						}
+					}
+				})
+				if len(leaves) > 0 {
+					l := leaves[rapid.IntRange(0, len(leaves)-1).Draw(rt, "leaf")]
+					l.B, l.I = nil, 0
+					if l.Type == ttlvref.BigInteger {
+						l.Big = new(big.Int)
+					}
+					removed++
+					continue
+				}
 			}
 			s := structs[rapid.IntRange(0, len(structs)-1).Draw(rt, "struct")]
 			d := rapid.IntRange(0, len(s.Kids)-1).Draw(rt, "kid")
@@ -478,6 +501,201 @@ func TestC14Accessors(t *testing.T) {
 		}
 		if what, err := callAccessors(&got); err != nil {
 			rec.Fail(rt, name, "accessor-panics:"+what, fmt.Errorf("%s: %w", what, err), map[string]any{"payload_hex": hex.EncodeToString(raw), "payload_tree": tree.String()})
+		}
+	})
+}
+
+// ---------------------------------------------------------------------------
+// Pairs of structural deviations, enumerated: "any subset of optional parts missing" is explored at random by
+// TestC14Accessors; the combinations that matter are small (an absent optional element together with an empty
+// or absent neighbour), so every single deviation and every pair of deviations of one generated object is tried.
+
+// supportedCurve moves a transparent EC key onto one of the four curves the accessors implement (half of the time): with
+// a curve drawn from the whole enumeration almost every accessor call ends at "unsupported curve" before it looks at anything else.
+func supportedCurve(rt *rapid.T, obj kmip.Object) {
+	kbf := reflect.ValueOf(obj).Elem().FieldByName("KeyBlock")
+	if !kbf.IsValid() {
+		return
+	}
+	kb := kbf.Addr().Interface().(*kmip.KeyBlock)
+	if kb.KeyValue == nil || kb.KeyValue.Plain == nil || !rapid.Bool().Draw(rt, "supported-curve") {
+		return
+	}
+	c := rapid.SampledFrom([]kmip.RecommendedCurve{kmip.RecommendedCurveP_224, kmip.RecommendedCurveP_256, kmip.RecommendedCurveP_384, kmip.RecommendedCurveP_521}).Draw(rt, "curve")
+	km := &kb.KeyValue.Plain.KeyMaterial
+	if km.TransparentECDSAPublicKey != nil {
+		km.TransparentECDSAPublicKey.RecommendedCurve = c
+	}
+	if km.TransparentECPublicKey != nil {
+		km.TransparentECPublicKey.RecommendedCurve = c
+	}
+	if km.TransparentECDSAPrivateKey != nil {
+		km.TransparentECDSAPrivateKey.RecommendedCurve = c
+	}
+	if km.TransparentECPrivateKey != nil {
+		km.TransparentECPrivateKey.RecommendedCurve = c
+	}
+}
+
+type c14Op struct {
+	path   []int
+	hollow bool // else: remove
+}
+
+func nodeAt(root *ttlvref.Node, path []int) *ttlvref.Node {
+	n := root
+	for _, i := range path {
+		n = n.Kids[i]
+	}
+	return n
+}
+
+func pathLess(a, b []int) bool {
+	for i := 0; i < len(a) && i < len(b); i++ {
+		if a[i] != b[i] {
+			return a[i] < b[i]
+		}
+	}
+	return len(a) < len(b)
+}
+
+func isPrefix(a, b []int) bool {
+	if len(a) > len(b) {
+		return false
+	}
+	for i := range a {
+		if a[i] != b[i] {
+			return false
+		}
+	}
+	return true
+}
+
+// applyOps returns a deviating copy of the tree (nil if the two operations cannot be combined).
+func applyOps(root *ttlvref.Node, ops []c14Op) *ttlvref.Node {
+	if len(ops) == 2 && (isPrefix(ops[0].path, ops[1].path) || isPrefix(ops[1].path, ops[0].path)) {
+		return nil
+	}
+	t := root.Clone()
+	// removals later in document order first, so that earlier paths stay valid
+	ord := append([]c14Op{}, ops...)
+	if len(ord) == 2 && pathLess(ord[0].path, ord[1].path) {
+		ord[0], ord[1] = ord[1], ord[0]
+	}
+	for _, op := range ord {
+		if op.hollow {
+			l := nodeAt(t, op.path)
+			l.B, l.I = nil, 0
+			if l.Type == ttlvref.BigInteger {
+				l.Big = new(big.Int)
+			}
+			continue
+		}
+		parent := nodeAt(t, op.path[:len(op.path)-1])
+		d := op.path[len(op.path)-1]
+		parent.Kids = append(parent.Kids[:d:d], parent.Kids[d+1:]...)
+	}
+	return t
+}
+
+func TestC14AccessorPairs(t *testing.T) {
+	const name = "TestC14AccessorPairs"
+	rec := evid.New("C14", name, "Get response payloads with a generated managed object (9 types, 13 key formats); for each, EVERY single deviation and EVERY pair of deviations of the object's elements is applied at tree level "+
+		"(an element removed; a string emptied or a number zeroed), the payload decoded and, if the decoder accepts it, all accessors called; oracle: value or error, never a panic; "+
+		"non-trivial = a decodable payload with two deviations; distinct by encoded payload").Attach(t)
+	if rp := evid.LoadReplay(name); rp != nil {
+		var c struct {
+			Hex string `json:"payload_hex"`
+		}
+		if err := json.Unmarshal(rp.Case, &c); err != nil {
+			t.Fatal(err)
+		}
+		raw, _ := hex.DecodeString(c.Hex)
+		var got payloads.GetResponsePayload
+		derr := safely(func() error {
+			dec, err := ttlv.NewTTLVDecoder(raw)
+			if err != nil {
+				return err
+			}
+			return dec.TagAny(tagResponsePayload, &got)
+		})
+		if derr == nil {
+			if what, err := callAccessors(&got); err != nil {
+				t.Fatalf("VERIF-FAIL property=C14 test=%s sig=accessor-panics:%s replay=: %s: %v", name, what, what, err)
+			}
+		}
+		return
+	}
+	rapid.Check(t, func(rt *rapid.T) {
+		g := gen.NewG(rt, gen.MsgOpts{})
+		obj := g.Object()
+		supportedCurve(rt, obj)
+		pl := &payloads.GetResponsePayload{ObjectType: obj.ObjectType(), UniqueIdentifier: "id", Object: obj}
+		w := &refwalk.Walker{}
+		ns, err := w.Emit(tagResponsePayload, reflect.ValueOf(pl))
+		if err != nil || len(ns) != 1 {
+			rt.Fatalf("harness: %v", err)
+		}
+		tree := ns[0]
+		// deviations inside the object (third element of the payload) only
+		var ops []c14Op
+		var walk func(n *ttlvref.Node, path []int)
+		walk = func(n *ttlvref.Node, path []int) {
+			if len(path) >= 2 {
+				ops = append(ops, c14Op{path: append([]int{}, path...)})
+				switch n.Type {
+				case ttlvref.ByteString, ttlvref.TextString, ttlvref.BigInteger:
+					if len(n.B) > 0 || (n.Big != nil && n.Big.Sign() != 0) {
+						ops = append(ops, c14Op{path: append([]int{}, path...), hollow: true})
+					}
+				}
+			}
+			for i, k := range n.Kids {
+				walk(k, append(path, i))
+			}
+		}
+		walk(tree, nil)
+		if len(ops) > 60 {
+			ops = ops[:60] // attribute-laden objects: the key block comes first
+		}
+		objName := reflect.TypeOf(obj).Elem().Name()
+		try := func(sel []c14Op) bool {
+			dev := applyOps(tree, sel)
+			if dev == nil {
+				return true
+			}
+			raw := ttlvref.Write(dev)
+			var got payloads.GetResponsePayload
+			derr := safely(func() error {
+				dec, err := ttlv.NewTTLVDecoder(raw)
+				if err != nil {
+					return err
+				}
+				return dec.TagAny(tagResponsePayload, &got)
+			})
+			rec.Eval(1)
+			if derr != nil {
+				return true
+			}
+			rec.Case(len(sel) == 2, raw, "object="+objName, fmt.Sprintf("deviations=%d", len(sel)))
+			if len(sel) == 2 && rec.WantSample() && dev.Count() < 25 {
+				rec.Sample(map[string]any{"payload_tree": dev.String()})
+			}
+			if what, err := callAccessors(&got); err != nil {
+				rec.Fail(rt, name, "accessor-panics:"+what, fmt.Errorf("%s: %w", what, err), map[string]any{"payload_hex": hex.EncodeToString(raw), "payload_tree": dev.String()})
+				return false
+			}
+			return true
+		}
+		for i := range ops {
+			if !try([]c14Op{ops[i]}) {
+				return
+			}
+			for j := i + 1; j < len(ops); j++ {
+				if !try([]c14Op{ops[i], ops[j]}) {
+					return
+				}
+			}
 		}
 	})
 }
